@@ -69,3 +69,12 @@ Theorem C19_normalize_range : forall lo hi : Q, ~ (hi - lo == 0)%Q ->
   ((1 / (hi - lo)) * lo + (- lo / (hi - lo)) == 0 /\ (1 / (hi - lo)) * hi + (- lo / (hi - lo)) == 1)%Q.
 Proof. exact normalize_range. Qed.
 Print Assumptions C19_normalize_range.
+
+(* ... and the SAME offsets are needed: storing through a*x+b and evaluating through a*x+b' breaks the interpolation
+   even for a true solution (exact 1D witness; this is what a wrong offset in a wrapper's operator() does) *)
+Theorem C19_evaluation_offset_must_be_the_storage_offset :
+  exists a b b' xs fs coef,
+    Qsolves (wmatrix Q Q 0%Q qsub (default1D 0) (affine a b) xs) (krhs Q Q 0%Q (default1D 0) fs) coef /\
+    ~ interpolates Q Q Qeq (weval Q Q 0%Q qadd Qmult qsub (default1D 0) (affine a b) (affine a b') xs coef) xs fs.
+Proof. exact offsets_must_agree. Qed.
+Print Assumptions C19_evaluation_offset_must_be_the_storage_offset.
